@@ -1008,4 +1008,71 @@ def execAssign (cst : Bool) (K : Nat) (t : Ty) (i : Nat) (e : E) : M :=
   | .z => if e.ty = .z then evalZ cst K (.v i) e else assignZfromQ cst K i e
   | .q => evalQ cst K i e
 
+/-! ### comparisons on mpq (`__gmp_binary_equal/less/greater`, `__gmp_cmp_function`, mpq overloads) -/
+namespace CmpFQ
+/-- sign of `mpq_cmp(q, r)`, `mpq_cmp_ui(q, l, 1)`, `mpq_cmp_si(q, l, 1)`, and of `mpq_cmp(q, temp)` after `mpq_set_d(temp, d)` -/
+def qArg (h : Heap) (q : Nat) : QArg → Option Int
+  | .q r => some (qcmp (qval h q) (qval h r))
+  | .bi (.ui l) => some (qcmp (qval h q) ((Int.ofNat l : Int) : Rat))
+  | .bi (.si l) => some (qcmp (qval h q) (l : Rat))
+  | .bi (.d d) => (dval d).map fun r => qcmp (qval h q) r
+  | .z _ => none
+def cmp (h : Heap) : QArg → QArg → Option Int
+  | .q q, b => qArg h q b
+  | .bi c, .q q => (qArg h q (.bi c)).map fun r => -r
+  | _, _ => none
+def equal (h : Heap) : QArg → QArg → Option Bool
+  | .q q, b => (qArg h q b).map (· == 0)
+  | .bi c, .q q => (qArg h q (.bi c)).map (· == 0)
+  | _, _ => none
+def less (h : Heap) : QArg → QArg → Option Bool
+  | .q q, b => (qArg h q b).map (· < 0)
+  | .bi c, .q q => (qArg h q (.bi c)).map (· > 0)
+  | _, _ => none
+def greater (h : Heap) : QArg → QArg → Option Bool
+  | .q q, b => (qArg h q b).map (· > 0)
+  | .bi c, .q q => (qArg h q (.bi c)).map (· < 0)
+  | _, _ => none
+end CmpFQ
+
+def fnCmpQ (o : Cmp) (a b : QArg) (h : Heap) : Option Int :=
+  match o with
+  | .eq => (CmpFQ.equal h a b).map b2i
+  | .ne => (CmpFQ.equal h a b).map fun r => b2i (!r)
+  | .lt => (CmpFQ.less h a b).map b2i
+  | .le => (CmpFQ.greater h a b).map fun r => b2i (!r)
+  | .gt => (CmpFQ.greater h a b).map b2i
+  | .ge => (CmpFQ.less h a b).map fun r => b2i (!r)
+  | .cmp => CmpFQ.cmp h a b
+
+/-- `mpq_class const& temp(expr)`: the object itself for an `mpq_class` operand, else a temporary `mpq_class`
+    constructed from the expression (an mpz-typed operand is converted: `mpq_set_z` / evaluation into the numerator) -/
+def bindQ (cst : Bool) (k : Nat) (e : E) (h : Heap) : Option (Nat × Heap) :=
+  match e.qleaf? with
+  | some i => some (i, h)
+  | none => (evalQ cst (k + 1) k e h).map fun h' => (k, h')
+
+def Opnd.isZ : Opnd → Bool
+  | .ex e => e.ty = .z
+  | .bi _ => true
+
+/-- a comparison statement with at least one mpq-typed class operand: both class operands are bound as mpq -/
+def execCmpQ (cst : Bool) (K : Nat) (o : Cmp) (a b : Opnd) (h : Heap) : Option Int :=
+  match a, b with
+  | .ex a, .ex b =>
+      (bindQ cst K a h).bind fun (la, h1) => (bindQ cst (K + 1) b h1).bind fun (lb, h2) => fnCmpQ o (.q la) (.q lb) h2
+  | .ex a, .bi c => (bindQ cst K a h).bind fun (la, h1) => fnCmpQ o (.q la) (.bi c) h1
+  | .bi c, .ex b => (bindQ cst K b h).bind fun (lb, h1) => fnCmpQ o (.bi c) (.q lb) h1
+  | .bi _, .bi _ => none
+
+/-- any comparison statement (mpirxx.h:3091–3118): evaluated in mpz when every class operand is mpz-typed, else in mpq -/
+def execCmp (cst : Bool) (K : Nat) (o : Cmp) (a b : Opnd) : Heap → Option Int :=
+  if a.isZ && b.isZ then execCmpZ cst K o a b else execCmpQ cst K o a b
+
+/-- `sgn(e)` -/
+def execSgn (cst : Bool) (K : Nat) (a : E) (h : Heap) : Option Int :=
+  if a.ty = .z then execSgnZ cst K a h
+  else (bindQ cst K a h).map fun (la, h1) => zsgn (h1 (.num la))        -- mpq_sgn: sign of the numerator
+
+
 end Mpir.Cxx
